@@ -63,9 +63,15 @@ SameIndex(Bd, a) == \E down \in BOOLEAN : SameIndexAs(Bd, BuildIndexP(a, R.eps, 
 Modelled(a) == Offset /\ R.cls = "PGMIndex" /\ Len(a) <= MaxModelN /\ R.sent <= 30000
 \* tier B for the one-level CompressedPGMIndex: stored segment keys and decoded intercepts = CompressedOps!BuildCompP
 \* (exact midpoint slopes; the float slope of the code can move a rounded intercept by one: drift, never an alarm)
-ModelledC(a) == Offset /\ R.cls = "Compressed" /\ R.epsrec = 0 /\ R.chunks = 1 /\ Len(a) <= MaxModelN /\ R.sent <= 30000
-SameCompressed(Bd, a) == \E up \in BOOLEAN : LET m == BuildCompP(a, R.eps, 1, R.sent, up) IN
-                         Len(Bd.levels) = 1 /\ Bd.levels[1].keys = m.keys /\ Bd.levels[1].ic = m.ics
+ModelledC(a) == Offset /\ R.cls = "Compressed" /\ R.chunks = 1 /\ Len(a) <= MaxModelN /\ R.sent <= 30000
+SameCompressed(Bd, a) ==
+  \E up \in BOOLEAN :
+     IF R.epsrec = 0
+     THEN LET m == BuildCompP(a, R.eps, 1, R.sent, up) IN
+          Len(Bd.levels) = 1 /\ Bd.levels[1].keys = m.keys /\ Bd.levels[1].ic = m.ics
+     ELSE LET m == BuildCompRecP(a, R.eps, R.epsrec, R.sent, up) IN          \* stored levels top-down, as the class keeps them
+          /\ Len(Bd.levels) = Len(m.levels) /\ Bd.height = m.height
+          /\ \A t \in 1..Len(m.levels) : Bd.levels[t].keys = m.levels[t].keys /\ Bd.levels[t].ic = m.levels[t].ics
 
 TBuild ==
   /\ IsEvent("Build")
